@@ -43,4 +43,16 @@ theorem witness_dec_wellTyped : wellTyped concreteEnv dec38 sentDec = true := by
 theorem witness_dec_not_representable : inhabits concreteEnv dec38 sentDec = false := by decide
 theorem witness_dec_changed : sendParam concreteEnv dec38 sentDec = .ok receivedDec := by rfl
 
+/-! Third open finding: a hint with the Optional *inside* the annotation, `Annotated[frozenset[int] | None, ArrowType(…)]`,
+is not resolved by `_deserialize_value` (it peels one Optional, then one Annotated layer): the value is returned as it came off
+the wire — a list instead of the frozenset — and None is refused although the annotation allows it. -/
+
+def optInsideAnn : List Wrap := [.annArrow, .opt]
+
+theorem witness_hint_unconverted :
+    tripH concreteEnv optInsideAnn (.set (.int .i64)) (.set [.int 1]) = .ok (.list [.int 1]) := by rfl
+theorem witness_hint_none_refused :
+    tripH concreteEnv optInsideAnn (.set (.int .i64)) .none = .error .typeError := by rfl
+theorem witness_hint_irregular : regular optInsideAnn = false := by decide
+
 end VgiVerif.C02.Findings
